@@ -144,6 +144,14 @@ func (dec *Decoder) Decode() (*Document, error) {
 			// This means the file is not valid. I have seen it in very rare
 			// cases. See full explanation in AllowInvalidIndents.
 			if dec.AllowInvalidIndents {
+				// There is nothing to hang the node under if the very first
+				// line is not a root node.
+				if len(indents) == 0 {
+					return nil, fmt.Errorf(
+						"line %d: indent is too large - missing parent? %s",
+						lineNumber, line)
+				}
+
 				indent = len(indents)
 			} else {
 				panic(fmt.Sprintf(
